@@ -319,8 +319,8 @@ def check(ctx):
 
 
 MUTANTS = [
-    M("copy flag ignored in _prepare_data", [(F_BASE, "            if self.copy:\n                x_copy = X.copy()\n", "")], "R-copy-true", "BaseDiscretizer.transform", quick=True),
-    M("copy condition inverted", [(F_BASE, "            if self.copy:\n                x_copy = X.copy()", "            if not self.copy:\n                x_copy = X.copy()")], "R-copy-true"),
+    M("copy flag ignored in _prepare_data", [(F_BASE, "        if self.copy:\n            x_copy = X.copy()\n", "")], "R-copy-true", "BaseDiscretizer.transform", quick=True),
+    M("copy condition inverted", [(F_BASE, "        if self.copy:\n            x_copy = X.copy()", "        if not self.copy:\n            x_copy = X.copy()")], "R-copy-true"),
     M("X passed instead of x_copy to _transform_qualitative", [(F_BASE, "            x_copy = self._transform_qualitative(x_copy, y)", "            x_copy = self._transform_qualitative(X, y)")], "R-copy-true", "transform"),
     M("ContinuousDiscretizer.fit casts the caller's columns in place", [(F_QUAN, "        # storing ordering\n        all_orders = []\n", "        # storing ordering\n        all_orders = []\n        X[self.quantitative_features] = X[self.quantitative_features].astype(float)\n")], "R-copy-true", "ContinuousDiscretizer.fit"),
     M("OrdinalDiscretizer replaces str_nan in the caller's frame", [(F_QUAL, "            x_copy = x_copy.replace(self.str_nan, nan)\n", "            X.replace(self.str_nan, nan, inplace=True)\n")], "R-copy-true", "OrdinalDiscretizer.fit"),
@@ -342,7 +342,7 @@ MUTANTS = [
     M("y mutated in ChainedDiscretizer-style fillna inplace", [(F_QUAL, "        # checking for binary target\n        x_copy = super()._prepare_data(X, y)\n\n        # checks and initilizes", "        # checking for binary target\n        x_copy = super()._prepare_data(X, y)\n        y.fillna(0, inplace=True)\n\n        # checks and initilizes")], "R-copy-true", "CategoricalDiscretizer.fit"),
 ]
 BENIGN = [
-    B("copy written as a conditional expression", [(F_BASE, "            x_copy = X\n            if self.copy:\n                x_copy = X.copy()", "            x_copy = X.copy() if self.copy else X")]),
+    B("copy written as a conditional expression", [(F_BASE, "        x_copy = X\n        if self.copy:\n            x_copy = X.copy()", "        x_copy = X.copy() if self.copy else X")]),
     B("transform keeps a local cache", [(F_BASE, "        # copying dataframes and casting for multiclass\n        x_copy = self.__prepare_data(X, y)", "        # copying dataframes and casting for multiclass\n        x_copy = self.__prepare_data(X, y)\n        seen_columns = list(x_copy.columns)\n        seen_columns.append('x')")]),
     B("aggregate used for validation only in transform", [(F_BASE, "    # keeping track of nans\n    nans = isna(df_feature)\n", "    # keeping track of nans\n    nans = isna(df_feature)\n    n_nans = nans.sum()\n    assert n_nans >= 0\n")]),
     B("frame rebuilt with explicit index variable", [(F_BASE, "{feature: values for feature, values in all_transformed}, index=X.index\n", "{feature: values for feature, values in all_transformed},\n            index=X.index,\n")]),
